@@ -173,11 +173,18 @@ def _lru_unmerged_task(arg):
 
 # ------------------------------------------------------------------ part B
 # sources 4 and 5 differ from source 0 only in leading / trailing whitespace: a cache key must tell them apart
-SOURCES = ["A{{ v }}", "B{{ v }}", "C{% if v %}y{% endif %}", "D", " A{{ v }}", "A{{ v }}\n"]
+SOURCES = ["A{{ v }}", "B{{ v }}", "C{% if v %}y{% endif %}", "D", " A{{ v }}", "A{{ v }}\n", '{% include "./c18part.html" %}']
+REL = len(SOURCES) - 1  # a source whose meaning depends on the origin it is compiled with (relative include)
+ORIGINS = {None: (None, None), "oa": ("c18oa/main.html", "c18oa/main.html"), "ob": ("c18ob/main.html", "c18ob/main.html"), "oa2": ("c18oa/main.html", "c18oa/other.html")}
 
 
 def ct_ops():
-    ops = [("ct", i, "T", None) for i in range(len(SOURCES))]
+    ops = [("ct", i, "T", None) for i in range(len(SOURCES)) if i != REL]
+    # the same source compiled for different origins / names (components with the same template text in different
+    # directories): the origin is baked into the compiled Template, so each (origin, name) is its own request
+    # (only for the source whose OUTPUT depends on the origin: whether sources that render the same for every origin may
+    # share an entry is the implementation's business)
+    ops += [("ct", REL, "T", None, "oa"), ("ct", REL, "T", None, "ob")]
     ops.append(("ct", 0, "MyT", None))
     ops.append(("ct", 0, "T", "E"))
     ops.append(("ct", 1, "MyT", "E"))
@@ -223,15 +230,22 @@ def ct_step(w, op):
         get_template_cache().clear()
         w.model.clear()
         return ("clear",), ct_invariant(w)
-    _, si, clsname, eng = op
+    _, si, clsname, eng = op[:4]
+    oname = op[4] if len(op) > 4 else None
+    o_name, t_name = ORIGINS[oname]
+    from django.template import Origin
+
+    mk_origin = lambda: Origin(name=o_name, template_name=t_name) if o_name else None  # noqa: E731
+    boot.LOCMEM_TEMPLATES.setdefault("c18oa/c18part.html", "PA")
+    boot.LOCMEM_TEMPLATES.setdefault("c18ob/c18part.html", "PB")
     cls = Template if clsname == "T" else MyT
     e = engine if eng else None
     src = SOURCES[si]
     try:
-        t = cached_template(src, template_cls=None if clsname == "T" else cls, engine=e)
+        t = cached_template(src, template_cls=None if clsname == "T" else cls, engine=e, origin=mk_origin(), name=t_name)
     except Exception as ex:
         return ("exc",), f"cached_template raised {type(ex).__name__}: {ex}"
-    key = (get_import_path(cls), src, get_import_path(type(e)) if e else None)
+    key = (get_import_path(cls), src, get_import_path(type(e)) if e else None, t_name, (o_name, t_name) if o_name else None)
     hit = key in w.model
     if hit:
         if t is not w.model[key]:
@@ -251,7 +265,7 @@ def ct_step(w, op):
     if t.source != src:
         return ("src",), f"returned template has source {t.source!r}, requested {src!r}"
     out = t.render(Context({"v": "1"}))
-    fresh = cls(src, engine=e).render(Context({"v": "1"}))
+    fresh = cls(src, engine=e, origin=mk_origin(), name=t_name).render(Context({"v": "1"}))
     if out != fresh:
         return ("out",), f"cached render {out!r} != fresh compile {fresh!r}"
     return ("hit" if hit else "new", out), ct_invariant(w)
@@ -268,16 +282,22 @@ def ct_invariant(w):
         return "template cache list broken"
     if len(c.cache) > w.size:
         return f"template cache holds {len(c.cache)} entries, configured size {w.size}"
-    if fwd != list(w.model.keys()):
-        return f"template cache order {fwd} != LRU model {list(w.model.keys())}"
+    # the implementation's key format is its own business: the recency order is compared through the cached objects
+    have = [id(c.cache[k].value) for k in fwd]
+    want = [id(t) for t in w.model.values()]
+    if have != want:
+        pos = {id(t): k for k, t in w.model.items()}
+        return f"template cache order (most recent first) {[pos.get(i, '<object not in the model>') for i in have]} != LRU model {list(w.model.keys())}"
     return None
 
 
 def ct_canon(w):
     from django_components.cache import get_template_cache
 
+    # canonical state = the recency order of the REQUESTS per the model (ct_invariant ties the implementation's list to
+    # it after every step), so that states are not merged by an implementation key that forgets a field
     fwd, _ = walk(get_template_cache())
-    return tuple(fwd)
+    return (tuple(w.model.keys()), len(fwd or ()))
 
 
 # ------------------------------------------------------------------ part C
@@ -287,7 +307,12 @@ COMP_SPECS = [
     ("c18c", "<i>{{ x }}</i>{% component 'c18a' / %}", "3"),
     ("c18d", "<b>{{ x }}</b>", "4"),
     ("c18e", "<p>{{ x }}</p>\n", "5"),  # c18a's source plus a trailing newline
+    # the same template text with a RELATIVE include in two components whose template names lie in different directories
+    # (the name a component is registered under is its template's name): each must include its own neighbour
+    ("c18oa/main", '{% include "./c18part.html" %}', "6"),
+    ("c18ob/main", '{% include "./c18part.html" %}', "7"),
 ]
+TAG_ONLY = ("c18oa/main", "c18ob/main")  # Python-side Cls.render() names the template after the class, not the registration
 
 
 def _make_components():
@@ -299,7 +324,7 @@ def _make_components():
         def gcd(self, _v=val):
             return {"x": _v}
 
-        cls = type("C18_" + name, (Component,), {"template": tpl, "get_context_data": gcd, "__module__": "verif_c18"})
+        cls = type("C18_" + name.replace("/", "_"), (Component,), {"template": tpl, "get_context_data": gcd, "__module__": "verif_c18"})
         if name in registry.all():
             registry.unregister(name)
         registry.register(name, cls)
@@ -324,7 +349,9 @@ def _component_task(size):
     for n in names:
         boot.set_components_setting(template_cache_size=128)
         boot.drop_template_cache()
-        solo[n] = _strip(classes[n].render(render_dependencies=False))
+        boot.LOCMEM_TEMPLATES.setdefault("c18oa/c18part.html", "PA")
+        boot.LOCMEM_TEMPLATES.setdefault("c18ob/c18part.html", "PB")
+        solo[n] = _strip(Template("{% component '" + n + "' / %}").render(Context({})) if n in TAG_ONLY else classes[n].render(render_dependencies=False))
     failures = []
     nseq = ntr = 0
     outs = set()
@@ -339,7 +366,7 @@ def _component_task(size):
             nseq += 1
             for j, i in enumerate(s):
                 n = names[i]
-                if j % 2 == 0:
+                if j % 2 == 0 and n not in TAG_ONLY:
                     out = _strip(classes[n].render(render_dependencies=False))
                 else:
                     out = _strip(Template("{% component '" + n + "' / %}").render(Context({})))
